@@ -88,6 +88,12 @@ def _layouts(tier):
         ('S2', main([['kt 5', SS(1)], [SS(1)], [['x', 3]], 'zz top'])),
     ]
     L += [
+        # ---- resources whose URLs carry percent escapes: the error names the URL as it is, escapes included
+        ('S2', [['my%20dir/main.conf', ['kt 5', '<ta n1>', [W2, ' ', V1], '</ta>', ['<', W2, '/>']]]]),
+        ('S2', [['my%20dir/main.conf', ['kt 5', '%include inc%231.conf', 'zz top']],
+                ['my%20dir/inc%231.conf', ['# c', ['<', W2, ' ', W2, '>'], '  ka 1', ['</', ('ref', 1, 1), '>'], [['x', 3]]]]]),
+    ]
+    L += [
         # ---- application key type / datatype: the error carries the very exception they raised
         ('SK', main(['kt 5', '<ta n1>', [['x', 2], ' ', V1], '  ka 1', '</ta>'])),
         ('SK', main([[['x', 2], ' ', V1], '<ta/>'])),
